@@ -528,7 +528,12 @@ func ruleC04(c *Ctx, r *Report) {
 				r.ok(rule, name, "each:success-after-exhaustion", c.Pos(gen.Pos()), "success is returned only on the HasNext()==false edge")
 			}
 			// every path Next() -> back edge files the text
-			filed := func(in ssa.Instruction) bool {
+			var filed func(in ssa.Instruction) bool
+			filed = func(in ssa.Instruction) bool {
+				if cc := callCommon(in); cc != nil {
+					// filing extracted into a package-private helper that appends on every path
+					return c.mustPassFn(staticCallee(cc), func(x ssa.Instruction) bool { _, isMU := x.(*ssa.MapUpdate); return isMU && filed(x) }, 1)
+				}
 				mu, ok := in.(*ssa.MapUpdate)
 				if !ok {
 					return false
